@@ -58,6 +58,9 @@ func (self ValueObject) DisplayFlat() (string, *VmInterrupt) {
 
 func (self ValueObject) IsEqual(other Value) (bool, *VmInterrupt) {
 	otherObj := other.(ValueObject)
+	if len(self.FieldsInternal) != len(otherObj.FieldsInternal) {
+		return false, nil // the loop below only shows self ⊆ other
+	}
 
 	for key, value := range self.FieldsInternal {
 		otherValue, found := otherObj.FieldsInternal[key]
